@@ -37,3 +37,11 @@ From TrV Require Import Proofs.GuardsTie.
 Theorem C09_reverse_allnodes_step_is_code : forall d p k st c, revall_step_code d p k st c = rev_step d p k true st c.
 Proof. exact revall_step_tie. Qed.
 Print Assumptions C09_reverse_allnodes_step_is_code.
+
+(* ---- THE FULL DECLARATIVE STATEMENT (Optimal.v): the arrival accessibility map lists exactly the stops at which some
+   journey reaching the place by the requested time boards a vehicle, once each, with the latest ready time, within
+   max_travel_time; never a hang / crash / stray exception ---- *)
+From TrV Require Import Proofs.RevOptCompose.
+Theorem C09_full_declarative : C09_decl_statement.
+Proof. exact C09_decl_proved. Qed.
+Print Assumptions C09_full_declarative.
